@@ -37,3 +37,4 @@ def run(repo, res, tier):
     # the leap-second tables are found where the decoder looks for them
     from .. import tablerules as _tb14
     _tb14.rule_getattr_name(repo, res)
+    _tb14.rule_time_frags(repo, res)
